@@ -153,9 +153,14 @@ func (voteSet *VoteSet) addVote(vote *Vote) (added bool, err error) {
 	valAddr := vote.ValidatorAddress
 	blockKey := vote.BlockID.Key()
 
-	// Ensure that validator index was set
-	if valIndex < 0 || len(valAddr) == 0 {
-		panic("Validator index or address was not set in vote.")
+	// Ensure that validator index was set.
+	// The vote may come straight from a peer (VoteMessage -> peerMsgQueue -> consensus goroutine, which has
+	// no recover), so an unset index or address is an invalid vote, not a reason to kill the node.
+	if valIndex < 0 {
+		return false, ErrVoteInvalidValidatorIndex
+	}
+	if len(valAddr) == 0 {
+		return false, ErrVoteInvalidValidatorAddress
 	}
 
 	// Make sure the step matches.
